@@ -178,7 +178,10 @@ func valueFor(r *rng.R, t reflect.Type) driver.Value {
 	return n
 }
 
-var foreignCols = []string{"extra", "_sqlair_00", "_sqlair_+1", "_sqlair_-1", "_sqlair_99", "x_sqlair_0", "_sqlair_", "_SQLAIR_0", "_sqlair_0x", " _sqlair_0", "_sqlair_1e0", "_sqlair_9223372036854775808"}
+var foreignCols = []string{"extra", "_sqlair_00", "_sqlair_+1", "_sqlair_-1", "_sqlair_99", "x_sqlair_0", "_sqlair_", "_SQLAIR_0", "_sqlair_0x", " _sqlair_0", "_sqlair_1e0", "_sqlair_9223372036854775808",
+	// numbers that wrap around a 64-bit or 32-bit integer to a small value
+	"_sqlair_18446744073709551616", "_sqlair_18446744073709551617", "_sqlair_18446744073709551618", "_sqlair_4294967296", "_sqlair_4294967297",
+	"_sqlair_36893488147419103232", "_sqlair_36893488147419103233"}
 
 func runL3(args []string) {
 	fs := flag.NewFlagSet("l3", flag.ExitOnError)
